@@ -1,4 +1,6 @@
 import LitexModel.Packet.Num
+import LitexModel.Packet.NumFifoAll
+import LitexModel.Packet.NumHdrClip
 open Litex Litex.Driver Litex.Packet
 
 def hdrArgs (args : List String) : Option (PkCfg × HdrSpec) := do
@@ -22,6 +24,19 @@ def openMachine (args : List String) (hin hout : IO.FS.Stream) : Option (IO Bool
     let pd ← pd.toNat?
     let qd ← qd.toNat?
     some (serve (numPacketFifoBuffered pd qd) hin hout)
+  | ["packetfifo_all", pd, qd, buf] => do
+    let pd ← pd.toNat?
+    let qd ← qd.toNat?
+    let buf ← buf.toNat?
+    some (serve (numPacketFifoAll pd qd (n2b buf)) hin hout)
+  | "packetizer_err" :: ew :: both :: rest => do
+    let ew ← ew.toNat?
+    let both ← both.toNat?
+    (hdrArgs rest).map fun (c, h) => serve (withError (numPacketizer c h) ew (n2b both)) hin hout
+  | "depacketizer_err" :: ew :: both :: rest => do
+    let ew ← ew.toNat?
+    let both ← both.toNat?
+    (hdrArgs rest).map fun (c, h) => serve (withError (numDepacketizer c h) ew (n2b both)) hin hout
   | ["arbiter", n] => n.toNat?.map fun n => serve (numArbiter n) hin hout
   | ["dispatcher", m, oh] => do
     let m ← m.toNat?
@@ -29,4 +44,4 @@ def openMachine (args : List String) (hin hout : IO.FS.Stream) : Option (IO Bool
     some (serve (numDispatcher m (n2b oh)) hin hout)
   | _ => none
 
-def main : IO Unit := mainLoop openMachine callFn
+def main : IO Unit := mainLoop openMachine fun a => (callFn a).orElse fun _ => callHdrClip a
